@@ -1,6 +1,7 @@
 package rules
 
 import (
+	"fmt"
 	"go/token"
 	"strings"
 
@@ -71,6 +72,12 @@ func c12(w *core.World, r *core.Report) {
 
 	r.Rule("R12.4", "bulk argument framing and ParseArgs slicing", 2)
 	ruleBulkFraming(w, r)
+
+	r.Rule("R12.6", "encode side: the three sibling encoders frame a bulk argument as '$' ≺ decimal length of the same bytes (at least one digit) ≺ CRLF ≺ bytes ≺ CRLF, a command as '*' ≺ argument count ≺ arguments", 8)
+	ruleEncoders(w, r)
+
+	r.Rule("R12.5", "the start offset the decoder offsets are added to is the position the cache reader was opened at (shared with R07.6)", 3)
+	ruleReplayStartOffset(w, r)
 }
 
 func ruleReadOffsetPairing(w *core.World, r *core.Report, f *ssa.Function) {
@@ -443,5 +450,218 @@ func ruleBulkFraming(w *core.World, r *core.Report) {
 		next:
 		}
 		r.Check(ok, "ParseArgs/args", f.Pos(), "the success return must carry every element after the command name (bs[1:])")
+	}
+}
+
+// ---------------------------------------------------------------- R12.6 encode side: bulk framing of the three sibling encoders
+
+type encStep struct {
+	what string
+	is   func(core.Site) bool
+}
+
+// orderedSteps: each step is matched by exactly one call of f and each
+// dominates the next.
+func orderedSteps(f *ssa.Function, steps []encStep) string {
+	var prev ssa.Instruction
+	for _, st := range steps {
+		var found []core.Site
+		for _, s := range core.Sites(f, false) {
+			if _, isDefer := s.Instr.(*ssa.Defer); isDefer {
+				continue
+			}
+			if st.is(s) {
+				found = append(found, s)
+			}
+		}
+		if len(found) != 1 {
+			return fmt.Sprintf("%s: expected exactly one, found %d", st.what, len(found))
+		}
+		if prev != nil && !core.Dominates(prev, found[0].Instr) {
+			return st.what + " does not follow the previous step on every path"
+		}
+		prev = found[0].Instr
+	}
+	return ""
+}
+
+func isLenOfVal(v ssa.Value, x ssa.Value) bool {
+	v = core.Unwrap(v)
+	if cv, ok := v.(*ssa.Convert); ok {
+		v = core.Unwrap(cv.X)
+	}
+	c, ok := v.(*ssa.Call)
+	if !ok {
+		return false
+	}
+	b, ok := c.Call.Value.(*ssa.Builtin)
+	return ok && b.Name() == "len" && len(c.Call.Args) == 1 && core.Unwrap(c.Call.Args[0]) == x
+}
+
+func isCRLFWrite(s core.Site) bool {
+	switch s.Name {
+	case "(*bufio.Writer).WriteString":
+		str, ok := core.ConstString(s.Args()[0])
+		return ok && str == "\r\n"
+	case "(*bufio.Writer).Write":
+		if ld, ok := core.Unwrap(s.Args()[0]).(*ssa.UnOp); ok && ld.Op == token.MUL {
+			if g, ok := ld.X.(*ssa.Global); ok && g.Name() == "crlfBytes" {
+				return true
+			}
+		}
+	case "(*pkg/redis/client/proto.Writer).crlf":
+		return true
+	}
+	return false
+}
+
+func ruleEncoders(w *core.World, r *core.Report) {
+	constIs := func(v ssa.Value, k int64) bool { c, ok := core.ConstInt(core.Unwrap(v)); return ok && c == k }
+	// --- proto.Writer (standalone targets)
+	if f := fn(w, r, "(*pkg/redis/client/proto.Writer).bytes"); f != nil && len(f.Params) == 2 {
+		b := ssa.Value(f.Params[1])
+		msg := orderedSteps(f, []encStep{
+			{"'$' type byte", func(s core.Site) bool { return s.Name == "(*bufio.Writer).WriteByte" && constIs(s.Args()[0], '$') }},
+			{"length of the same bytes", func(s core.Site) bool {
+				return s.Name == "(*pkg/redis/client/proto.Writer).writeLen" && isLenOfVal(s.Args()[0], b)
+			}},
+			{"the bytes", func(s core.Site) bool { return s.Name == "(*bufio.Writer).Write" && core.Unwrap(s.Args()[0]) == b }},
+			{"CRLF", isCRLFWrite},
+		})
+		r.Check(msg == "", "proto.Writer.bytes/framing", f.Pos(), "a bulk argument must be written as '$' ≺ decimal len(b) ≺ CRLF ≺ b ≺ CRLF: %s", msg)
+	}
+	if f := fn(w, r, "(*pkg/redis/client/proto.Writer).writeLen"); f != nil && len(f.Params) == 2 {
+		n := ssa.Value(f.Params[1])
+		okNum, okCRLF, okWrite := false, false, false
+		for _, s := range core.Sites(f, false) {
+			switch s.Name {
+			case "strconv.AppendUint", "strconv.AppendInt":
+				a := s.Args()
+				if len(a) == 3 && constIs(a[2], 10) {
+					v := core.Unwrap(a[1])
+					if cv, ok := v.(*ssa.Convert); ok {
+						v = core.Unwrap(cv.X)
+					}
+					okNum = v == n
+				}
+			case "(*bufio.Writer).Write":
+				okWrite = true
+			}
+		}
+		// append(buf, '\r', '\n')
+		for _, in := range core.Instrs(f) {
+			if c, ok := in.(*ssa.Call); ok {
+				if bi, ok := c.Call.Value.(*ssa.Builtin); ok && bi.Name() == "append" && len(c.Call.Args) == 2 {
+					if el, ok := core.VariadicElems(c.Call.Args[1]); ok && len(el) == 2 && constIs(el[0], '\r') && constIs(el[1], '\n') {
+						okCRLF = true
+					}
+				}
+			}
+		}
+		r.Check(okNum && okCRLF && okWrite, "proto.Writer.writeLen/decimal", f.Pos(), "a length is written as the decimal digits of n (base 10: %v) followed by CRLF (%v) and flushed to the writer (%v)", okNum, okCRLF, okWrite)
+	}
+	if f := fn(w, r, "(*pkg/redis/client/proto.Writer).WriteArgs"); f != nil && len(f.Params) == 2 {
+		args := ssa.Value(f.Params[1])
+		msg := orderedSteps(f, []encStep{
+			{"'*' type byte", func(s core.Site) bool { return s.Name == "(*bufio.Writer).WriteByte" && constIs(s.Args()[0], '*') }},
+			{"argument count", func(s core.Site) bool {
+				return s.Name == "(*pkg/redis/client/proto.Writer).writeLen" && isLenOfVal(s.Args()[0], args)
+			}},
+			{"each argument", func(s core.Site) bool { return s.Name == "(*pkg/redis/client/proto.Writer).WriteArg" }},
+		})
+		r.Check(msg == "", "proto.Writer.WriteArgs/framing", f.Pos(), "a command must be written as '*' ≺ decimal len(args) ≺ CRLF ≺ every argument: %s", msg)
+	}
+	// --- cluster connection (cluster targets)
+	for _, nm := range []string{"writeBytes", "writeString"} {
+		f := fn(w, r, "(*pkg/redis/client/cluster.redisConn)."+nm)
+		if f == nil || len(f.Params) != 2 {
+			continue
+		}
+		p := ssa.Value(f.Params[1])
+		msg := orderedSteps(f, []encStep{
+			{"'$' + length of the same bytes", func(s core.Site) bool {
+				return s.Name == "(*pkg/redis/client/cluster.redisConn).writeLen" && constIs(s.Args()[0], '$') && isLenOfVal(s.Args()[1], p)
+			}},
+			{"the bytes", func(s core.Site) bool {
+				return (s.Name == "(*bufio.Writer).Write" || s.Name == "(*bufio.Writer).WriteString") && core.Unwrap(s.Args()[0]) == p
+			}},
+			{"CRLF", isCRLFWrite},
+		})
+		r.Check(msg == "", "cluster.redisConn."+nm+"/framing", f.Pos(), "a bulk argument must be written as '$' ≺ decimal len ≺ CRLF ≺ bytes ≺ CRLF: %s", msg)
+	}
+	if f := fn(w, r, "(*pkg/redis/client/cluster.redisConn).writeLen"); f != nil && len(f.Params) == 3 {
+		// hand-rolled decimal conversion: at least one digit is produced (0 is "0"), digits are n%10 + '0', n /= 10
+		var wr core.Site
+		for _, s := range core.SitesNamed(f, false, "(*bufio.Writer).Write") {
+			wr = s
+		}
+		okDigit, okDiv, okPrefix, okCRLF := false, false, false, 0
+		for _, in := range core.Instrs(f) {
+			st, ok := in.(*ssa.Store)
+			if !ok {
+				continue
+			}
+			if _, isIdx := st.Addr.(*ssa.IndexAddr); !isIdx {
+				continue
+			}
+			v := core.Unwrap(st.Val)
+			if cv, ok := v.(*ssa.Convert); ok {
+				v = core.Unwrap(cv.X)
+			}
+			if b, ok := v.(*ssa.BinOp); ok && b.Op == token.ADD {
+				x, y := core.Unwrap(b.X), core.Unwrap(b.Y)
+				if constIs(y, '0') {
+					x, y = y, x
+				}
+				if rm, ok := y.(*ssa.BinOp); ok && constIs(x, '0') && rm.Op == token.REM && constIs(rm.Y, 10) {
+					// the digit store must execute at least once before the write: it dominates it
+					okDigit = wr.Instr != nil && core.Dominates(st, wr.Instr)
+				}
+			}
+			if v == ssa.Value(f.Params[1]) {
+				okPrefix = wr.Instr != nil && core.Dominates(st, wr.Instr)
+			}
+			if constIs(v, '\r') || constIs(v, '\n') {
+				okCRLF++
+			}
+		}
+		for _, in := range core.Instrs(f) {
+			if b, ok := in.(*ssa.BinOp); ok && b.Op == token.QUO && constIs(b.Y, 10) {
+				okDiv = true
+			}
+		}
+		r.Check(okDigit && okDiv && okPrefix && okCRLF == 2, "cluster.redisConn.writeLen/decimal", f.Pos(), "a length is written as prefix ≺ decimal digits ≺ CRLF; the digit step ('0' + n%%10) must run at least once before the write so that 0 is written as \"0\" (digit dominates write: %v, n/=10: %v, prefix stored: %v, CR and LF stored: %d)", okDigit, okDiv, okPrefix, okCRLF)
+	}
+	if f := fn(w, r, "(*pkg/redis/client/cluster.redisConn).writeCommand"); f != nil && len(f.Params) == 3 {
+		args := ssa.Value(f.Params[2])
+		okCount, okCmd := false, false
+		var cnt, cm ssa.Instruction
+		for _, s := range core.Sites(f, false) {
+			switch s.Name {
+			case "(*pkg/redis/client/cluster.redisConn).writeLen":
+				if constIs(s.Args()[0], '*') {
+					if b, ok := core.Unwrap(s.Args()[1]).(*ssa.BinOp); ok && b.Op == token.ADD && isLenOfVal(b.X, args) && constIs(b.Y, 1) {
+						okCount, cnt = true, s.Instr
+					}
+				}
+			case "(*pkg/redis/client/cluster.redisConn).writeString":
+				if core.Unwrap(s.Args()[0]) == ssa.Value(f.Params[1]) {
+					okCmd, cm = true, s.Instr
+				}
+			}
+		}
+		r.Check(okCount && okCmd && core.Dominates(cnt, cm), "cluster.redisConn.writeCommand/framing", f.Pos(), "a command must be written as '*' ≺ decimal len(args)+1 ≺ the command name ≺ the arguments (count: %v, name: %v)", okCount, okCmd)
+	}
+	// --- client.encoder (re-encoding of decoded values)
+	if f := fn(w, r, "(*pkg/redis/client.encoder).encodeBulkBytes"); f != nil && len(f.Params) == 2 {
+		b := ssa.Value(f.Params[1])
+		msg := orderedSteps(f, []encStep{
+			{"length of the same bytes", func(s core.Site) bool {
+				return s.Name == "(*pkg/redis/client.encoder).encodeInt" && isLenOfVal(s.Args()[0], b)
+			}},
+			{"the bytes", func(s core.Site) bool { return s.Name == "(*bufio.Writer).Write" && core.Unwrap(s.Args()[0]) == b }},
+			{"CRLF", isCRLFWrite},
+		})
+		r.Check(msg == "", "client.encoder.encodeBulkBytes/framing", f.Pos(), "a bulk value must be written as decimal len(b) ≺ CRLF ≺ b ≺ CRLF: %s", msg)
 	}
 }
